@@ -14,7 +14,7 @@ from inspect import Parameter
 
 from jedi.inference.utils import to_list
 from jedi.inference.names import ParamNameWrapper
-from jedi.inference.helpers import is_big_annoying_library
+from jedi.inference.helpers import is_big_annoying_library, infer_call_of_leaf
 
 
 def _iter_nodes_for_param(param_name):
@@ -62,17 +62,10 @@ def _goes_to_param_name(param_name, context, potential_name):
 
 
 def _to_callables(context, trailer):
-    from jedi.inference.syntax_tree import infer_trailer
-
-    atom_expr = trailer.parent
-    index = atom_expr.children[0] == 'await'
-    # Infer atom first
-    values = context.infer_node(atom_expr.children[index])
-    for trailer2 in atom_expr.children[index + 1:]:
-        if trailer == trailer2:
-            break
-        values = infer_trailer(context, values, trailer2)
-    return values
+    # Everything in front of the bracket is the callable. The trailer can be
+    # part of an error node (`return foo(*args).`), where the first child is
+    # not necessarily the start of the expression.
+    return infer_call_of_leaf(context, trailer.children[0], cut_own_trailer=True)
 
 
 def _remove_given_params(arguments, param_names):
